@@ -155,6 +155,21 @@ proof fn lemma_gdedup<T>(s: Seq<T>)
 //@include ../common/limitsort.rs
 // the comparator closure of prepare's selection (by count, descending), replaced by name (R30); its text is pinned by hash
 pub struct CmpCounts;
+mod cntx {
+    use vstd::prelude::*;
+    use super::{ls_le, CmpCounts};
+    // link (rule R12b): the tag CmpCounts stands for the comparator closure of prepare, lifted into `cmp_counts` and proved there to
+    // order by the counter, larger first
+    pub axiom fn ls_le_counts(a: (usize, &usize), b: (usize, &usize)) ensures ls_le::<(usize, &usize), CmpCounts>(CmpCounts, a, b) == (*a.1 >= *b.1);
+}
+proof fn lemma_ls_ok_counts() ensures ls_ok::<(usize, &usize), CmpCounts>(CmpCounts)
+{
+    reveal(ls_ok);
+    assert forall|x: (usize, &usize), y: (usize, &usize)| #[trigger] ls_le::<(usize, &usize), CmpCounts>(CmpCounts, x, y) || ls_le::<(usize, &usize), CmpCounts>(CmpCounts, y, x) by { cntx::ls_le_counts(x, y); cntx::ls_le_counts(y, x); }
+    assert forall|x: (usize, &usize), y: (usize, &usize), z: (usize, &usize)| #[trigger] ls_le::<(usize, &usize), CmpCounts>(CmpCounts, x, y) && #[trigger] ls_le::<(usize, &usize), CmpCounts>(CmpCounts, y, z) implies ls_le::<(usize, &usize), CmpCounts>(CmpCounts, x, z) by { cntx::ls_le_counts(x, y); cntx::ls_le_counts(y, z); cntx::ls_le_counts(x, z); }
+}
+// position j occurs among the first n entries of a posting list
+pub open spec fn in_prefix(ixs: Seq<usize>, n: int, j: int) -> bool { exists|u: int| 0 <= u < n && #[trigger] ixs[u] == j }
 // the candidate list against the counters: from the counting invariants of `prepare` to its contract
 proof fn lemma_prepare_post(dict0: Map<[char; 3], Vec<usize>>, len0: int, qw: Seq<WordShape>, qc: Seq<char>, size: int, grams: Seq<[char; 3]>, counts: Seq<usize>, ps: Seq<int>, idx: Seq<int>, r: Seq<usize>)
     requires counts.len() == len0, len0 >= 0,
@@ -167,6 +182,11 @@ proof fn lemma_prepare_post(dict0: Map<[char; 3], Vec<usize>>, len0: int, qw: Se
         idx.len() == r.len(), idx.no_duplicates(), forall|k: int| 0 <= k < r.len() ==> 0 <= #[trigger] idx[k] < ps.len() && r[k] as int == ps[idx[k]],
         r.len() == (if ps.len() < size * 10 { ps.len() as int } else { size * 10 }), size >= 0,
         r.len() == ps.len() ==> forall|m: int| 0 <= m < ps.len() ==> idx.contains(m),
+        // C18 ranking: the counters are the shared-gram counts; the list is in counter order and nothing left out has a larger counter
+        grams.no_duplicates(),
+        forall|j: int| 0 <= j < len0 ==> #[trigger] counts[j] == shared_cnt(dict0, grams, j, grams.len() as int),
+        forall|a: int, b: int| 0 <= a <= b < r.len() ==> counts[#[trigger] r[a] as int] >= counts[#[trigger] r[b] as int],
+        forall|j: int| 0 <= j < len0 && !#[trigger] r.contains(j as usize) && r.len() > 0 ==> counts[r.last() as int] >= counts[j],
     ensures prepare_post(dict0, len0, qw, qc, size, r),
 {
     assert forall|j: int| 0 <= j < len0 implies (#[trigger] shares(dict0, qw, qc, j) <==> counts[j] > 0) by {
@@ -213,6 +233,13 @@ proof fn lemma_prepare_post(dict0: Map<[char; 3], Vec<usize>>, len0: int, qw: Se
             let k = choose|k: int| 0 <= k < idx.len() && idx[k] == m;
             assert(r[k] as int == j);
         }
+    }
+    assert(gram_enum(grams, qw, qc));
+    assert(cnt_ranked(dict0, grams, len0, r)) by {
+        assert forall|a: int, b: int| 0 <= a <= b < r.len() implies shared_cnt(dict0, grams, #[trigger] r[a] as int, grams.len() as int) >= shared_cnt(dict0, grams, #[trigger] r[b] as int, grams.len() as int) by {
+            assert(counts[r[a] as int] >= counts[r[b] as int]);
+        }
+        if r.len() > 0 { assert(r[r.len() - 1] < len0); }
     }
 }
 // @item rust/core/src/store/trigram_index.rs :: struct TrigramIndex
@@ -320,6 +347,8 @@ impl TrigramIndex {
             proof {
                 assert forall|j: int| 0 <= j < len0 && #[trigger] shares(dict0, query.words@, query.chars@, j) implies false by {}
                 assert(share_set(dict0, len0, query.words@, query.chars@) =~= Set::<int>::empty());
+                assert(gram_enum(Seq::<[char; 3]>::empty(), query.words@, query.chars@));
+                assert(cnt_ranked(dict0, Seq::<[char; 3]>::empty(), len0, Seq::<usize>::empty()));
             }
             return Vec::new();
         }
@@ -335,6 +364,8 @@ impl TrigramIndex {
                 // the counter of a position is positive exactly when one of the grams seen so far lists it
                 forall|j: int| 0 <= j < len0 && #[trigger] counts@[j] > 0 ==> exists|t: int| 0 <= t < __i0 && #[trigger] posted(dict0, grams@[t], j), // [C05]
                 forall|t: int, j: int| 0 <= t < __i0 && 0 <= j < len0 && #[trigger] posted(dict0, grams@[t], j) ==> counts@[j] > 0, // [C03 C04]
+                // C18: the counter IS the number of grams seen so far that list the position
+                forall|j: int| 0 <= j < len0 ==> #[trigger] counts@[j] == shared_cnt(dict0, grams@, j, __i0 as int), // [C18]
         {
             let gram = &grams[__i0];
             if let Some(ixs) = dict.get(gram) {
@@ -347,6 +378,7 @@ impl TrigramIndex {
                         forall|j: int| 0 <= j < len0 && #[trigger] counts@[j] > 0 ==> (exists|t: int| 0 <= t < __i0 && #[trigger] posted(dict0, grams@[t], j)) || (exists|u: int| 0 <= u < __i1 && #[trigger] ixs@[u] == j), // [C05]
                         forall|t: int, j: int| 0 <= t < __i0 && 0 <= j < len0 && #[trigger] posted(dict0, grams@[t], j) ==> counts@[j] > 0, // [C03 C04]
                         forall|u: int| 0 <= u < __i1 ==> counts@[#[trigger] ixs@[u] as int] > 0, // [C03 C04]
+                        forall|j: int| 0 <= j < len0 ==> #[trigger] counts@[j] == shared_cnt(dict0, grams@, j, __i0 as int) + (if in_prefix(ixs@, __i1 as int, j) { 1int } else { 0int }), // [C18]
                 {
                     let ix = ixs[__i1];
                     let ghost c0 = counts@;
@@ -360,6 +392,17 @@ impl TrigramIndex {
                             if j == ix { assert(ixs@[__i1 as int] == j); } else { assert(c0[j] > 0); }
                         }
                         assert forall|u: int| 0 <= u < __i1 + 1 implies counts@[#[trigger] ixs@[u] as int] > 0 by { if u < __i1 { assert(c0[ixs@[u] as int] > 0); } }
+                        assert forall|j: int| 0 <= j < len0 implies #[trigger] counts@[j] == shared_cnt(dict0, grams@, j, __i0 as int) + (if in_prefix(ixs@, __i1 as int + 1, j) { 1int } else { 0int }) by {
+                            if j == ix {
+                                // strictly increasing posting list: ix did not occur before
+                                assert(!in_prefix(ixs@, __i1 as int, j)) by { if in_prefix(ixs@, __i1 as int, j) { let u = choose|u: int| 0 <= u < __i1 && #[trigger] ixs@[u] == j; assert(ixs@[u] < ixs@[__i1 as int]); } }
+                                assert(ixs@[__i1 as int] == j);
+                                assert(in_prefix(ixs@, __i1 as int + 1, j));
+                            } else {
+                                if in_prefix(ixs@, __i1 as int + 1, j) { let u = choose|u: int| 0 <= u < __i1 + 1 && #[trigger] ixs@[u] == j; assert(u < __i1); assert(in_prefix(ixs@, __i1 as int, j)); }
+                                if in_prefix(ixs@, __i1 as int, j) { let u = choose|u: int| 0 <= u < __i1 && #[trigger] ixs@[u] == j; assert(in_prefix(ixs@, __i1 as int + 1, j)); }
+                            }
+                        }
                     }
                 }
             }
@@ -378,6 +421,14 @@ impl TrigramIndex {
                         assert(counts@[dict0[*gram]@[u] as int] > 0);
                     }
                 }
+                assert forall|j: int| 0 <= j < len0 implies #[trigger] counts@[j] == shared_cnt(dict0, grams@, j, __i0 as int + 1) by {
+                    if dict0.contains_key(*gram) {
+                        let l = dict0[*gram]@;
+                        assert(in_prefix(l, l.len() as int, j) == posted(dict0, grams@[__i0 as int], j));
+                    } else {
+                        assert(!posted(dict0, grams@[__i0 as int], j));
+                    }
+                }
             }
         }
         let mut __items0: Vec<(usize, &usize)> = Vec::new();
@@ -387,6 +438,8 @@ impl TrigramIndex {
                 forall|m: int| 0 <= m < __items0@.len() ==> (#[trigger] __items0@[m]).0 < __p0 && counts@[__items0@[m].0 as int] > 0,
                 forall|a: int, b: int| 0 <= a < b < __items0@.len() ==> (#[trigger] __items0@[a]).0 < (#[trigger] __items0@[b]).0,
                 forall|j: int| 0 <= j < __p0 && counts@[j] > 0 ==> exists|m: int| 0 <= m < __items0@.len() && (#[trigger] __items0@[m]).0 == j,
+                // each item carries its position's counter
+                forall|m: int| 0 <= m < __items0@.len() ==> *(#[trigger] __items0@[m]).1 == counts@[__items0@[m].0 as int], // [C18]
             decreases counts@.len() - __p0,
         {
             let __ix = __p0;
@@ -412,9 +465,10 @@ impl TrigramIndex {
                 }
             }
         }
-        let __sel0 = limit_sort_all(__items0, size * 10, CmpCounts);
         let ghost items = __items0@;
-        let ghost idx = choose|idx: Seq<int>| selection(__sel0@, items, idx);
+        proof { lemma_ls_ok_counts(); }
+        let __sel0 = limit_sort_all(__items0, size * 10, CmpCounts);
+        let ghost idx = choose|idx: Seq<int>| selection(__sel0@, items, idx) && ls_best(__sel0@, items, idx, CmpCounts);
         let mut __out0: Vec<usize> = Vec::new();
         let mut __q0 = 0;
         while __q0 < __sel0.len()
@@ -439,6 +493,20 @@ impl TrigramIndex {
             assert forall|j: int| 0 <= j < len0 && counts@[j] > 0 implies exists|m: int| 0 <= m < ps.len() && #[trigger] ps[m] == j by {
                 let m = choose|m: int| 0 <= m < items.len() && (#[trigger] items[m]).0 == j;
                 assert(ps[m] == j);
+            }
+            assert forall|k: int| 0 <= k < r.len() implies *(#[trigger] __sel0@[k]).1 == counts@[r[k] as int] by { assert(__sel0@[k] == items[idx[k]]); }
+            assert forall|a: int, b: int| 0 <= a <= b < r.len() implies counts@[#[trigger] r[a] as int] >= counts@[#[trigger] r[b] as int] by {
+                cntx::ls_le_counts(__sel0@[a], __sel0@[b]);
+                assert(ls_le(CmpCounts, __sel0@[a], __sel0@[b]));
+            }
+            assert forall|j: int| 0 <= j < len0 && !#[trigger] r.contains(j as usize) && r.len() > 0 implies counts@[r.last() as int] >= counts@[j] by {
+                if counts@[j] > 0 {
+                    let m = choose|m: int| 0 <= m < items.len() && (#[trigger] items[m]).0 == j;
+                    if idx.contains(m) { let k = choose|k: int| 0 <= k < idx.len() && idx[k] == m; assert(r[k] == j as usize); assert(false); }
+                    cntx::ls_le_counts(__sel0@.last(), items[m]);
+                    assert(ls_le(CmpCounts, __sel0@.last(), items[m]));
+                    assert(*__sel0@[r.len() - 1].1 == counts@[r[r.len() - 1] as int]);
+                }
             }
             lemma_prepare_post(dict0, len0, qw, qc, size as int, grams@, counts@, ps, idx, r);
         }
